@@ -6,8 +6,11 @@ REPO = os.environ.get("VERIF_REPO", "/repo")
 COQ = os.path.join(ROOT, "coq")
 BUILD = os.environ.get("VERIF_BUILD", os.path.join(ROOT, "build"))
 GEN = os.path.join(BUILD, "gen")
-REPLAYS = os.path.join(ROOT, "replays")
-EVID = os.path.join(ROOT, "evidence")
+# a run against another tree (VERIF_BUILD set, e.g. a mutated scratch worktree) must not overwrite
+# the evidence and replays of /verif's own runs against /repo
+_PRIVATE = "VERIF_BUILD" in os.environ
+REPLAYS = os.path.join(BUILD, "replays") if _PRIVATE else os.path.join(ROOT, "replays")
+EVID = os.path.join(BUILD, "evidence") if _PRIVATE else os.path.join(ROOT, "evidence")
 
 GOENV = dict(os.environ, GOFLAGS="-mod=mod", GOPROXY="off", GOSUMDB="off",
              GOTOOLCHAIN="local", CGO_ENABLED=os.environ.get("CGO_ENABLED", "0"))
